@@ -319,4 +319,119 @@ theorem commandOfItem_char {σ} (A : TAuto σ) (it : Item σ) (e : Event)
         subst h
         simp [charOf] at hc
 
+/-! ## modifier words stay inside the defined flags -/
+
+/-- the modifier word of a key or mouse event (`KeyMod::bits`) -/
+def modOf : Event → Option Nat
+  | .key k => some k.mode
+  | .mouse _ m _ _ => some m
+  | _ => none
+
+/-- every event a decoder body produces has its modifier word below 512 = inside `KeyMod::ALL` -/
+theorem decode_mod (k : Family) (d : List Nat) (e : Event) (he : SurfModel.Payload.decode k d = .ok (some e))
+    (m : Nat) (hm : modOf e = some m) : m < 512 := by
+  cases k with
+  | keys => simp [SurfModel.Payload.decode] at he
+  | kittyKeyboard =>
+    simp only [SurfModel.Payload.decode, decodeKittyKeyboard] at he
+    repeat' split at he
+    all_goals first
+      | (simp at he; done)
+      | (simp only [Except.ok.injEq, Option.some.injEq] at he; subst he
+         simp only [modOf, Option.some.injEq] at hm; subst hm; first | omega | (split <;> omega) | (split <;> (try split) <;> omega))
+      | (simp only [Except.ok.injEq, Option.some.injEq] at he; subst he; simp [modOf] at hm)
+  | mouse =>
+    simp only [SurfModel.Payload.decode, decodeMouse] at he
+    repeat' split at he
+    all_goals first
+      | (simp at he; done)
+      | (simp only [Except.ok.injEq, Option.some.injEq] at he; subst he
+         simp only [modOf, Option.some.injEq] at hm; subst hm; first | omega | (unfold modPress; omega) | (unfold modPress; split <;> omega))
+  | utf8 =>
+    simp only [SurfModel.Payload.decode, decodeUtf8] at he
+    split at he
+    · simp at he
+    · simp only [Except.ok.injEq, Option.some.injEq] at he; subst he
+      simp only [modOf, Option.some.injEq] at hm; omega
+  | cursorPosition =>
+    simp only [SurfModel.Payload.decode, decodeCursorPosition] at he
+    repeat' split at he
+    all_goals first | (simp at he; done) | (simp at he; subst he; simp [modOf] at hm)
+  | decMode =>
+    simp only [SurfModel.Payload.decode, decodeDecMode] at he
+    repeat' split at he
+    all_goals first | (simp at he; done) | (simp at he; subst he; simp [modOf] at hm)
+  | deviceAttrs =>
+    simp only [SurfModel.Payload.decode, decodeDeviceAttrs] at he
+    repeat' split at he
+    all_goals first | (simp at he; done) | (simp at he; subst he; simp [modOf] at hm)
+  | sgr =>
+    simp only [SurfModel.Payload.decode, decodeSgr, decodeSgrBody] at he
+    repeat' split at he
+    all_goals first | (simp at he; done) | (simp at he; subst he; simp [modOf] at hm)
+  | kittyImage =>
+    simp only [SurfModel.Payload.decode, decodeKittyImage] at he
+    repeat' split at he
+    all_goals first | (simp at he; done) | (simp at he; subst he; simp [modOf] at hm)
+  | osc =>
+    simp only [SurfModel.Payload.decode, decodeOsc] at he
+    repeat' split at he
+    all_goals first | (simp at he; done) | (simp at he; subst he; simp [modOf] at hm)
+  | reportSetting =>
+    simp only [SurfModel.Payload.decode, decodeReportSetting] at he
+    repeat' split at he
+    all_goals first | (simp at he; done) | (simp at he; subst he; simp [modOf] at hm)
+  | termcap =>
+    simp only [SurfModel.Payload.decode, decodeTermcap] at he
+    repeat' split at he
+    all_goals first | (simp at he; done) | (simp at he; subst he; simp [modOf] at hm)
+  | termSize =>
+    simp only [SurfModel.Payload.decode, decodeTermSize] at he
+    repeat' split at he
+    all_goals first | (simp at he; done) | (simp at he; subst he; simp [modOf] at hm)
+  | paste =>
+    simp only [SurfModel.Payload.decode, decodePaste] at he
+    repeat' split at he
+    all_goals first | (simp at he; done) | (simp at he; subst he; simp [modOf] at hm)
+
+/-- whatever event an item of the event decoder becomes, its modifier word is below 512 (every automaton:
+    the key of a literal-table tag is rebuilt from its code, whose modifier part is `code mod 512`) -/
+theorem eventOfItem_mod {σ} (A : TAuto σ) (it : Item σ) (e : Event) (h : eventOfItem A it = .ok e)
+    (m : Nat) (hm : modOf e = some m) : m < 512 := by
+  cases it with
+  | raw bs =>
+    simp only [eventOfItem, Except.ok.injEq] at h
+    subst h
+    simp [modOf] at hm
+  | tok bs q =>
+    simp only [eventOfItem] at h
+    split at h
+    · cases h
+    · simp only [eventOfTok] at h
+      split at h
+      · cases h
+      · rename_i e' hd
+        simp only [Except.ok.injEq] at h
+        subst h
+        unfold decodeTok at hd
+        split at hd
+        · split at hd
+          · rename_i k hk
+            simp only [Except.ok.injEq, Option.some.injEq] at hd
+            subst hd
+            simp only [modOf, Option.some.injEq] at hm
+            subst hm
+            unfold Key.ofCode at hk
+            simp only [Option.map_eq_some_iff] at hk
+            obtain ⟨n, _, rfl⟩ := hk
+            exact Nat.mod_lt _ (by omega)
+          · cases hd
+        · split at hd
+          · rename_i k _
+            exact decode_mod k _ _ hd m hm
+          · cases hd
+      · simp only [Except.ok.injEq] at h
+        subst h
+        simp [modOf] at hm
+
 end SurfProofs.DecoderEvents
